@@ -58,7 +58,7 @@ func runC16(c *core.Ctx) {
 		// nor the built-in integer type (its values are judged by C13, not here; one such argument at most, so that
 		// which conversion error is reported first cannot depend on the iteration order of a map)
 		a.BuiltinInt = a == p.Args[[]int{0, len(p.Args) - 1}[pi%2]] && c.R.Intn(4) == 0 // (first or last: a scalar among list-like ones)
-		a.FlagLike = c.R.Intn(6) == 0 // nor a bool-like value type
+		a.FlagLike = c.R.Intn(6) == 0                                                   // nor a bool-like value type
 		a.Default = ""
 		if c.R.Intn(4) == 0 {
 			a.Default = "dflt" // nor a non-empty default
